@@ -71,10 +71,11 @@ SPEC = {
                     "are not in the modelled schemas (generators avoid them)",
                     "the reload comparison skips configurations whose sub-configuration names its own key file and holds a "
                     "secret (open finding F34 of C03); bytes-on-disk are still checked there",
-                    "measured on the unchanged tree and kept OUT of the generated domain until a finding id is assigned: an "
-                    "untyped field holding a dict with non-string keys saves successfully under JSON and BSON but loads "
-                    "back with the keys turned into strings ({1: 'a'} -> {'1': 'a'}; True -> 'true'/'True', None -> "
-                    "'null'/'None'), and under XML {None: 1} saves and loads back as {} (PENDING in s_savefaults.py)",
+                    "observed, not counted (outside the formats' representable domain: C02/C04 speak of string-keyed maps, XML keys "
+                    "are XML names): an untyped field holding a map with non-string keys saves under JSON and BSON and loads "
+                    "back with string keys ({1: 'a'} -> {'1': 'a'}; True -> 'true'/'True', None -> 'null'/'None'), and under "
+                    "XML {None: 1} saves and loads back as {}. Generated untyped maps have string keys under json/bson/xml; "
+                    "int keys are kept under yaml/pickle, where they round-trip (NOT_REPRESENTABLE in s_savefaults.py)",
                     "an empty SecureField value '' is stored as null and loads back as None: treated as equal",
                     "load_after_save is stated over a decoder assumed to invert the formatter (C04); equality of the "
                     "reloaded configuration is C02 and is only sampled here (oracle)"],
